@@ -4,6 +4,7 @@ var engineDir = map[string]string{"sync": "sync", "pmm": "pmm", "pmmc": "pmm", "
 var engineKind = map[string]string{
 	"sync": "real compiled spinlock under a seeded one-at-a-time scheduler (goroutine tasks with a baton, yieldFn seam, inserted statement yields) + instruction-level interpreter of the current spinlock_amd64.s with single-instruction interleaving",
 	"pmm":  "simulated boot: generated multiboot memory map -> real early allocator -> real pmm.Init -> real bitmap allocator; sequential multi-caller histories against a frame-set reference model, injected reservation/mapping failures, natural early-boot OOM",
+	"vmm":  "software MMU over a fixed-address host arena: simulated CR3, TLB invalidation log, seeded failing frame allocator, independent page-table walker; real Map/Unmap/Translate/regions/PageDirectoryTable/vmm.Init/page-fault handler; harness plays bootloader (ELF sections tag) and CPU (page faults)",
 	"pmmc": "same simulated boot, bitmap_allocator.go rebuilt with go/ast-inserted yields; 2-16 goroutine tasks under the seeded scheduler, real spinlock; ownership invariant, conservation at quiescence, exact deadlock detection, porcupine linearizability of recorded histories",
 }
 
@@ -36,4 +37,24 @@ func init() {
 		"Trusted: simulation kit, instrumenter (statement granularity), reference frame sets. Not covered: true parallelism, weak memory. The anchor's 'static pairing of Acquire/Release' is replaced by executing every return path under contention (probes).",
 		"deterministic simulation: seeded scheduler over yield-instrumented real code; invariants + linearizability (porcupine) of recorded histories",
 		"DESIGN.md 5.1 / 4.3")
+	t("C04",
+		"Seeded operation histories on a software MMU with every present leaf of every address space compared against a page->entry model by an independent walker after each operation, plus systematic enumeration: for a short history every (operation, k-th frame allocation) pair is made to fail once. Sampling of histories; enumeration of fault points within each sampled history.",
+		"Trusted: simulated MMU (ideal: no stale TLB entries), walker, allocator stub, temporary-mapping data-path shim. nextAddrFn's argument (virtual address arithmetic of the next table) is not exercised.",
+		"deterministic simulation with fault injection: software MMU, seeded histories + systematic k-th allocation failure, reference model refinement",
+		"DESIGN.md 5.3.2")
+	t("C05",
+		"Seeded simulated boots (reservations + generated ELF sections + optional failures) through the real vmm.Init; complete enumeration of the activated page-table tree must equal the expected set exactly.",
+		"Trusted: as C04 plus the ELF-sections tag builder. Weakest fit for the family (no schedule; faults are irrelevant to the statement) - claimed as a stage of the simulated boot observable only through the simulated MMU.",
+		"deterministic simulation: simulated bootloader + software MMU, whole-tree comparison against expected mappings",
+		"DESIGN.md 5.3.3")
+	t("C06",
+		"Seeded histories after a real boot: guard attempts through every mapping entry point, page faults raised through the handler the kernel registered, with allocation / temporary-mapping failure injected at each step of the handler; return-vs-panic and the complete post-state are checked; zero-frame invariant after every step in every address space.",
+		"Trusted: as C04; page contents are compared through frames (virtual window loaded from the mapped frame before the fault).",
+		"deterministic simulation with fault injection: harness-CPU page faults, per-step allocator/temp-map failures, invariant + post-state oracle",
+		"DESIGN.md 5.3.4")
+	t("C07",
+		"Seeded request histories (sizes 0 .. beyond remaining space .. 2^64-1) against a list-of-grants model; recorded map-seam calls compared pair by pair; map failure injected at a seeded call.",
+		"Trusted: arithmetic of the model (unbounded via explicit overflow checks). Map seam is a recorder here.",
+		"deterministic simulation with fault injection: seeded request histories, grant-list reference model, failing map seam",
+		"DESIGN.md 5.3.5")
 }
